@@ -170,6 +170,20 @@ func Items(quick bool) []Item {
 	out = append(out, thin(lexfam.Stack(true), every*3, "stack", 4)...)
 	out = append(out, thin(lexfam.Includes(true), every*3, "include", 4)...)
 	out = append(out, thin(lexfam.Names(true), every/4+1, "names", 4)...)
+	// the definitions with names that collide with something built in (a rule called EOF, a state called "")
+	// are always in, whatever the thinning picks
+	{
+		nf := lexfam.Names(true)
+		have := map[string]bool{}
+		for _, it := range out {
+			have[it.ID] = true
+		}
+		for i := len(nf.Defs) - 4; i < len(nf.Defs); i++ {
+			if id := fmt.Sprintf("names%05d", i); i >= 0 && !have[id] && supported(nf.Defs[i]) {
+				out = append(out, Item{Family: "names", Def: nf.Defs[i], Alphabet: nf.Alphabet, MaxLen: 4, ID: id})
+			}
+		}
+	}
 	out = append(out, thin(lexfam.Positions(true), every/2+1, "positions", 4)...)
 	sort.SliceStable(out, func(i, j int) bool { return out[i].Family < out[j].Family })
 	return out
